@@ -222,3 +222,7 @@ def run(chk, F):
     chk.run_rule("C02.flag-pairing", "in-indexer flag written only by the Sentry wrapper (true on insert, false on leave); in-eviction flag only by Eviction impls", 16, flag_pairing, F)
     chk.run_rule("C02.handle-immutable", "no code path assigns to or mutably borrows Record.data", 4, C18.immutable, F)
     chk.run_rule("C02.dispatch", "every five-way dispatcher forwards to the same method in all arms", 20, dispatch, F)
+
+
+def thorough(chk):
+    C18.thorough(chk)
